@@ -7,6 +7,7 @@ import (
 
 	"reflect"
 	"strings"
+	"sync"
 
 	"github.com/oneconcern/datamon/pkg/storage"
 
@@ -20,6 +21,59 @@ import (
 // spending the back-off time on a process that is "dead" would only burn the budget.
 type deadStore struct {
 	v *memstore.Store
+	w *World
+}
+
+// ShortRead is a transient failure memstore cannot express: the Nth Get on a key containing KeySub
+// succeeds, but the returned stream breaks (memstore.ErrInjected) after half of the object, as a
+// connection reset in the middle of a download would.
+type ShortRead struct {
+	Store  string // backend name ("meta", "blob"), empty = any
+	KeySub string
+	Nth    int
+	Times  int
+	mu     sync.Mutex
+	seen   int
+	Hits   int
+}
+
+type brokenReader struct {
+	data []byte
+	off  int
+}
+
+func (b *brokenReader) Read(p []byte) (int, error) {
+	if b.off >= len(b.data) {
+		return 0, memstore.ErrInjected
+	}
+	n := copy(p, b.data[b.off:])
+	b.off += n
+	return n, nil
+}
+
+func (b *brokenReader) Close() error { return nil }
+
+func (s *ShortRead) wrap(store, key string, r io.ReadCloser) io.ReadCloser {
+	if s == nil || !strings.Contains(key, s.KeySub) || (s.Store != "" && s.Store != store) {
+		return r
+	}
+	s.mu.Lock()
+	defer s.mu.Unlock()
+	s.seen++
+	times := s.Times
+	if times < 1 {
+		times = 1
+	}
+	if s.seen < s.Nth || s.seen >= s.Nth+times {
+		return r
+	}
+	data, err := io.ReadAll(r)
+	_ = r.Close()
+	if err != nil {
+		return &brokenReader{}
+	}
+	s.Hits++
+	return &brokenReader{data: data[:len(data)/2]}
 }
 
 var _ storage.Store = deadStore{}
@@ -72,7 +126,7 @@ func (d deadStore) Get(ctx context.Context, k string) (io.ReadCloser, error) {
 	if err != nil {
 		return nil, dead(err)
 	}
-	return r, nil
+	return d.w.short().wrap(d.v.Backend().Name, k, r), nil
 }
 
 func (d deadStore) GetAttr(ctx context.Context, k string) (storage.Attributes, error) {
